@@ -78,11 +78,46 @@ def span_rule(chk, P):
         for bb in sorted(b.reachable_blocks()):
             for i, st in enumerate(b.blocks[bb]["stmts"]):
                 if st["s"] == "assign" and st["rv"]["r"] == "bin" and st["rv"]["op"] in ("Add", "Sub", "Mul", "AddWithOverflow", "SubWithOverflow", "MulWithOverflow"):
+                    if not st["lhs"]["p"] and _feeds_only_line_counter(b, st["lhs"]["l"]):
+                        continue   # a line counter advanced by a token length is no location (C19's business)
                     for side in ("a", "b"):
                         c = canon(P.operand_term(b, bb, st["rv"][side], i))
                         if re.search(r"\.span|peek_span|Lexer::span|\.start|\.end", c):
                             tainted.append((b.name, c))
     chk.require(not tainted, "ORG", "ORG:no-span-arithmetic", "no arithmetic on span-derived values in parser::* / lexer::*", "arithmetic on span-derived values: %s" % tainted[:3])
+
+
+def _mentions(o, l):
+    if isinstance(o, dict):
+        if o.get("k") in ("copy", "move") and o.get("l") == l:
+            return True
+        if "l" in o and "p" in o and o.get("l") == l and "k" not in o:
+            return True
+        return any(_mentions(v, l) for v in o.values())
+    if isinstance(o, list):
+        return any(_mentions(v, l) for v in o)
+    return False
+
+
+def _feeds_only_line_counter(b, l):
+    """Is local `l` (result of an arithmetic statement) used only by its overflow assert and by
+    stores into a field named `line`?"""
+    used = False
+    for bb in b.reachable_blocks():
+        for st in b.blocks[bb]["stmts"]:
+            if st["s"] != "assign":
+                continue
+            if _mentions(st["rv"], l):
+                proj = [e.get("f") if isinstance(e, dict) else e for e in st["lhs"]["p"]]
+                if not (proj and proj[-1] == "line"):
+                    return False
+                used = True
+        t = b.term(bb)
+        if t["t"] == "assert":
+            continue
+        if _mentions({k: v for k, v in t.items() if k not in ("span",)}, l):
+            return False
+    return used
 
 
 def run(chk, ctx):
